@@ -384,6 +384,11 @@ def scenarios():
     S.append(("fake-numa-uniform", "memorysidecaches", [put("proc/cmdline", "BOOT_IMAGE=/vmlinuz numa=fake=2U quiet\n")], {}, ["filter 15 0"], {"load": 0, "count": [[15, 0]]}))
     S.append(("fake-numa-split", "memorysidecaches", [put("proc/cmdline", "numa=fake=4\n")], {}, ["filter 15 0"], {"load": 0, "count": [[15, 0]]}))
     S.append(("memcaches-kept", "memorysidecaches", [], {}, ["filter 15 0"], {"load": 0, "mincount": [[15, 1]]}))
+    S.append(("cpuless-node-behind-memcache", "memorysidecaches", [put("sys/devices/system/node/node2/cpumap", "0\n")], {"HWLOC_USE_NUMA_DISTANCES": "0"}, ["filter 15 0"],
+              {"load": 0, "objs": [{"ty": 14, "os": 2, "partype": 15}], "count": [[14, 4], [15, 4]]}))
+    # witness of node_os_distinct_refuted (Props/Properties_C18.v): two directory entries for index 0, CPU-less cpumap
+    S.append(("node-duplicate-index", "2arm-2c", [put("sys/devices/system/node/node0/cpumap", "0\n"), put("sys/devices/system/node/node00/cpumap", "0\n")], {}, [], {"load": "any"}))
+    S.append(("node-directory-without-node", "2arm-2c", [put("sys/devices/system/node/has_cpu", "0-1\n")], {}, [], {"load": "any"}))
     S.append(("node-dir-junk", "16amd64-8n2c", [put("sys/devices/system/node/nodefoo/cpumap", "0\n"), put("sys/devices/system/node/node/cpumap", "0\n")], {}, [], {"load": 0, "count": [[14, 8]]}))
     # --- a PCI tree on a snapshot that has none
     pexp = {"load": 0, "objs": [{"ty": 16, "at": "bup:0,bdown:1"}, {"ty": 16, "at": "dev:1,func:0,class:1540,vendor:32902,device:257,ddom:0,dsec:1,dsub:2"},
